@@ -258,11 +258,25 @@ def r16_1(ctx, rc):
     # type dispatch literals of the reader
     rd_types = {}
     from ..astpaths import cond_paths, eq_const_fact
+    def eq_const(t):
+        # ``x == 'lit'`` or ``x == Cls.NAMED_LITERAL``
+        r = eq_const_fact(t)
+        if r is not None:
+            return r
+        if isinstance(t, ast.Compare) and len(t.ops) == 1 and isinstance(
+                t.ops[0], (ast.Eq, ast.NotEq)):
+            neg = isinstance(t.ops[0], ast.NotEq)
+            for a, b in ((t.left, t.comparators[0]),
+                         (t.comparators[0], t.left)):
+                c = prog.const_value(b, reader)
+                if c is not None and not isinstance(b, ast.Constant):
+                    return a, c.value, neg
+        return None
     for conds, st in cond_paths(reader.node.body):
-        lits = [eq_const_fact(t)[1] for t, pol in conds
-                if eq_const_fact(t) is not None and
-                isinstance(eq_const_fact(t)[1], str) and
-                pol != eq_const_fact(t)[2]]
+        lits = [eq_const(t)[1] for t, pol in conds
+                if eq_const(t) is not None and
+                isinstance(eq_const(t)[1], str) and
+                pol != eq_const(t)[2]]
         if not lits:
             continue
         for c in ast.walk(st):
@@ -428,6 +442,10 @@ def r16_1(ctx, rc):
         # type literal
         key = 'type discriminator of ' + K
         wt = wmap.get('type')
+        if wt and not isinstance(wt[3], ast.Constant):
+            cw = prog.const_value(wt[3], W)
+            if cw is not None:
+                wt = wt[:3] + (cw,) + tuple(wt[4:])
         if K in rd_types:
             if wt and isinstance(wt[3], ast.Constant) and \
                     wt[3].value == rd_types[K]:
